@@ -8,6 +8,8 @@
 (*    "E" = e-acute (a two-byte character)   "B" = backslash               *)
 (*    "N" = LF    "T" = TAB (0x09)   "G" = BEL (0x07)   "S" = ESC (0x1b)   *)
 (*    "Z" = a byte that is not valid UTF-8 on its own (0xE9)               *)
+(*    "R" = CR (0x0d): an ordinary character of the line, also directly    *)
+(*          before the final LF (a CR LF ending that was kept)             *)
 (*                                                                         *)
 (* (P) layer only: each operator below is the documented meaning of one    *)
 (* kind.  TLC enumerates (kind, expression) x candidate lines and prints   *)
@@ -66,7 +68,7 @@ Hex == {"0", "1", "6", "a"}
 HexVal(c) == CASE c = "0" -> 0 [] c = "1" -> 1 [] c = "6" -> 6 [] c = "a" -> 10
 Oct == {"0", "1", "6"}
 \* the bytes that the hex / octal pairs over the alphabet can denote, by token
-ByteTok(v) == CASE v = 97 -> "a" [] v = 10 -> "N" [] v = 9 -> "T" [] v = 7 -> "G" [] v = 27 -> "S" [] v = 92 -> "B"
+ByteTok(v) == CASE v = 97 -> "a" [] v = 10 -> "N" [] v = 13 -> "R" [] v = 9 -> "T" [] v = 7 -> "G" [] v = 27 -> "S" [] v = 92 -> "B"
                 [] OTHER -> "#" \o ToString(v)          \* any other byte: "#<decimal value>"
 
 ERR == <<"ERR">>
@@ -82,6 +84,7 @@ Decode(e) ==
              after4 == SubSeq(e, 5, Len(e)) IN
         IF c = "t" THEN Cons(<<"T">>, Decode(after2))
         ELSE IF c = "a" THEN Cons(<<"G">>, Decode(after2))
+        ELSE IF c = "r" THEN Cons(<<"R">>, Decode(after2))
         ELSE IF c = "B" THEN Cons(<<"B">>, Decode(after2))
         ELSE IF c = "x" THEN
             IF Len(e) >= 4 /\ e[3] \in Hex /\ e[4] \in Hex
@@ -150,7 +153,7 @@ CramAlpha    == {"a", "*", "?", "B"}
 CramPatterns == SeqsUpTo(CramAlpha, IF Tier = "quick" THEN 3 ELSE 4)
 CramLines    == LET W == SeqsUpTo(CramAlpha, 3) IN W \cup {WithNL(w) : w \in W}
 
-EscAlpha == {"a", "E", "B", "t", "x", "6", "1", "0", "q"}
+EscAlpha == {"a", "E", "B", "t", "r", "x", "6", "1", "0", "q"}
 EscExprs == SeqsUpTo(EscAlpha, IF Tier = "quick" THEN 4 ELSE 5)
 \* candidate lines for an escaped expression with decoding d (d # ERR) and raw text e
 EscCands(e, d) == {d, WithNL(d), Front(d), WithNL(Front(d)), Append(d, "a"), WithNL(Append(d, "a")),
@@ -188,7 +191,9 @@ AllCands == CASE kind = "regex" -> RLines
            [] kind = "escaped" -> (IF Decode(expr) = ERR THEN {} ELSE EscCands(expr, Decode(expr)))
            [] kind = "escglob" -> (IF Decode(expr) = ERR THEN {} ELSE EGLines)
            [] OTHER -> PlainCands(expr)
-Cands == {l \in AllCands : ValidLine(l)}
+\* every LF-terminated candidate also with a CR directly before the LF (a kept CR LF ending): the CR belongs to the line
+WithCR(l) == Front(l) \o <<"R", NL>>
+Cands == LET base == {l \in AllCands : ValidLine(l)} IN base \cup {WithCR(l) : l \in {x \in base : Len(x) > 0 /\ x[Len(x)] = NL}}
 Expected(line) == CASE kind = "regex" -> RegexMatch(ast, line)
                     [] kind = "glob" -> GlobMatch(expr, TrimNL(line))
                     [] kind = "cramglob" -> CramGlobMatch(expr, TrimNL(line))
